@@ -56,10 +56,28 @@ def programs():
                                           threads=[[['send_text', 'T1-0 mmmmmmmmmmmm']], [['send_text', 'T2-0 mmmmmmmmmmmm']]])
     P['2x3-z'] = dict(z='permessage-deflate', threads=[[['send_text', 'T0-%d rrrrrrrrrrrrrr' % j] for j in range(3)],
                                                        [['send_text', 'T1-%d rrrrrrrrrrrrrr' % j] for j in range(3)]])
+    # the event loop inflates a compressed server message while another thread is compressing
+    P['loop-server-ztext+sender-z-nocontext'] = dict(z='permessage-deflate; client_no_context_takeover', loop='server-ztext', loop_n=2,
+                                                    threads=[[['send_text', 'T1-0 wwwwwwwwwwwwwwww'], ['send_text', 'T1-1 wwwwwwwwwwwwwwww']]])
+    P['loop-server-ztext+sender-z'] = dict(z='permessage-deflate', loop='server-ztext', loop_n=2,
+                                          threads=[[['send_text', 'T1-0 vvvvvvvvvvvvvvvv'], ['send_binary', b'T1-1 vvvvvvvvvvvvvvvv']]])
+    # one frame larger than the 64 KiB buffer: it must still be written atomically
+    P['big-frame||ping'] = dict(z=None, threads=[[['send_binary', b'T0-0 ' + bytes(range(256)) * 280]], [['send_ping', b'T1-0']]])
+    P['big-frame-z||text||ping'] = dict(z='permessage-deflate', threads=[[['send_binary', b'T0-0 ' + bytes(random.Random(5).randbytes(90000))]],
+                                                                        [['send_text', 'T1-0', False]], [['send_ping', b'T2-0']]])
     P['3x2-z'] = dict(z='permessage-deflate', threads=[[['send_text', 'T%d-%d ssssssssssssss' % (t, j)] for j in range(2)] for t in range(3)])
     P['2x2-z-window9'] = dict(z='permessage-deflate; client_max_window_bits=9',
                               threads=[[['send_binary', b'T0-0 ' + bytes(range(256)) * 3], ['send_binary', b'T0-1 ' + bytes(range(256)) * 3]],
                                        [['send_binary', b'T1-0 ' + bytes(range(256)) * 3], ['send_text', 'T1-1 uuuuuuuu']]])
+    # the event loop inflates a compressed server message while another thread is compressing
+    P['loop-server-ztext+sender-z-nocontext'] = dict(z='permessage-deflate; client_no_context_takeover', loop='server-ztext', loop_n=2,
+                                                    threads=[[['send_text', 'T1-0 wwwwwwwwwwwwwwww'], ['send_text', 'T1-1 wwwwwwwwwwwwwwww']]])
+    P['loop-server-ztext+sender-z'] = dict(z='permessage-deflate', loop='server-ztext', loop_n=2,
+                                          threads=[[['send_text', 'T1-0 vvvvvvvvvvvvvvvv'], ['send_binary', b'T1-1 vvvvvvvvvvvvvvvv']]])
+    # one frame larger than the 64 KiB buffer: it must still be written atomically
+    P['big-frame||ping'] = dict(z=None, threads=[[['send_binary', b'T0-0 ' + bytes(range(256)) * 280]], [['send_ping', b'T1-0']]])
+    P['big-frame-z||text||ping'] = dict(z='permessage-deflate', threads=[[['send_binary', b'T0-0 ' + bytes(random.Random(5).randbytes(90000))]],
+                                                                        [['send_text', 'T1-0', False]], [['send_ping', b'T2-0']]])
     P['3x2-z'] = dict(z='permessage-deflate', threads=[[['send_text', 'T%d-%d ssssssssssssss' % (t, j)] for j in range(2)] for t in range(3)])
     P['2x2-z-window9'] = dict(z='permessage-deflate; client_max_window_bits=9',
                               threads=[[['send_binary', b'T0-0 ' + bytes(range(256)) * 3], ['send_binary', b'T0-1 ' + bytes(range(256)) * 3]],
@@ -100,6 +118,11 @@ def _execute(prog, plan=None, rnd=None, switch_prob=0.0, files=None, pct=None):
         horizon = 50.0
     elif loop == 'server-close':
         steps = [('at', 1.0), ('raw', F(8, refws.close_payload(1000, 'srv')))]
+    elif loop == 'server-close-empty':
+        steps = [('at', 1.0), ('raw', F(8, b'')), ('await_close',), ('eof',)]
+    elif loop == 'server-ztext':
+        _zp = deflate_peer.Peer()
+        steps = [('at', 1.0), ('raw', F(1, _zp.compress(b'server says hello hello hello'), rsv=4) + F(1, _zp.compress(b'and again hello'), rsv=4))]
     elif loop == 'server-close-reply':
         steps = [('at', 1.0), ('raw', F(8, refws.close_payload(1000, 'reply')))]
     elif loop == 'server-ping-close':
@@ -157,12 +180,12 @@ def _execute(prog, plan=None, rnd=None, switch_prob=0.0, files=None, pct=None):
                 except (StopIteration, simnet.Quiesced):
                     loop_events.append('<end>')
 
-            first_tid = 0
+            first_tid = int((plan or {}).get(-1, 0)) if plan else 0
             if loop:
                 s.spawn('loop', loop_fn)
             for k, calls in enumerate(prog['threads']):
                 s.spawn('T%d' % (k + (1 if loop else 0)), make_app(k + (1 if loop else 0), calls))
-            s.run(first=first_tid)
+            s.run(first=min(first_tid, len(s.threads) - 1))
             out.sched = s
             out.world = w
             out.records = records
@@ -243,6 +266,11 @@ def judge_c11(prog, out):
     lib = []
     if prog.get('loop') == 'server-ping' and 'ping' in out.loop_events:
         lib.append((10, b'srv-ping'))
+    if prog.get('loop') == 'server-ztext':
+        # the loop must have delivered both server messages intact as well
+        if out.loop_events[:2] != ['text', 'text']:
+            detail['loop_events'] = out.loop_events
+            return 'server-message-lost-while-another-thread-was-sending', detail, None
     rest = list(decoded)
     order = []
     for tid, j, op, pl in want:
@@ -276,15 +304,20 @@ def explore_dfs(prog, bound, judge, acc, case, max_runs, shard, nshards, files=s
     """iterative context bounding; first-level children are partitioned over the shards"""
     runs = 0
     complete = True
-    root = execute(prog, plan={}, files=files, **kw)
     stack = []
-    lvl1 = sched.children(root.sched.trace, {}, bound, 0)
-    if shard == 0:
-        account(prog, root, judge, acc, case, 'dfs', {})
-        runs += 1
-    for k, (p, used) in enumerate(lvl1):
-        if k % nshards == shard:
-            stack.append((p, used))
+    nthreads = len(prog['threads']) + (1 if prog.get('loop') else 0)
+    k = 0
+    for first in range(nthreads):
+        # which thread starts is a free choice (not a preemption): one DFS root per starting thread
+        base = {-1: first}
+        root = execute(prog, plan=dict(base), files=files, **kw)
+        if shard == 0:
+            account(prog, root, judge, acc, case, 'dfs', base)
+            runs += 1
+        for (p, used) in sched.children(root.sched.trace, base, bound, 0):
+            if k % nshards == shard:
+                stack.append((p, used))
+            k += 1
     while stack:
         if runs >= max_runs:
             complete = False
@@ -293,10 +326,8 @@ def explore_dfs(prog, bound, judge, acc, case, max_runs, shard, nshards, files=s
         out = execute(prog, plan=plan, files=files, **kw)
         runs += 1
         account(prog, out, judge, acc, case, 'dfs', plan)
-        # deeper plans only make sense if the forced choices were all taken
-        if used < bound or True:
-            for ch in sched.children(out.sched.trace, plan, bound, used):
-                stack.append(ch)
+        for ch in sched.children(out.sched.trace, plan, bound, used):
+            stack.append(ch)
     acc.count2('explore', 'dfs_schedules', runs)
     return complete, runs
 
